@@ -29,7 +29,6 @@ package metadata
 //@   loop 1
 //@     invariant -1 <= rangeindex && rangeindex < len(pod.Status.Conditions)
 //@     invariant forall j int :: 0 <= j && j <= rangeindex ==> pod.Status.Conditions[j].Type != v1.PodScheduled
-//@     invariant forall c *v1.PodCondition :: old(allocated(c)) ==> c.Type == old(c.Type) && c.Status == old(c.Status) && c.Reason == old(c.Reason) && c.Message == old(c.Message) && c.ObservedGeneration == old(c.ObservedGeneration) && c.LastProbeTime == old(c.LastProbeTime) && c.LastTransitionTime == old(c.LastTransitionTime)
 //@     decreases len(pod.Status.Conditions) - rangeindex
 //@   ensures [none] noScheduledCond(pod) ==> !result
 //@   ensures [first] forall i int :: firstScheduledAt(pod, i) ==> result == (pod.Status.Conditions[i].Status == v1.ConditionTrue)
